@@ -180,6 +180,22 @@ Definition avs_fails_id (e : env) (a : avs) (id : Z) (rows : list row) : bool :=
   prices_fail (e_assets e) (v_assets a) || existsb (fun r => op_fails e a (r_op r)) (rows_of id rows).
 Definition avs_fails (e : env) (a : avs) (rows : list row) : bool := avs_fails_id e a (v_id a) rows.
 
+(* The guard as the STATEMENT grants it: a priced pool of an opted-in operator that holds an amount whose token equivalent
+   cannot be computed (amount without shares, self share above the total share).  An EMPTY pool (amount 0) is never an
+   excuse: its value is 0 whatever the leftover share fields say — if the code chokes on it, the statement is violated. *)
+Definition op_fails_stmt (e : env) (a : avs) (op : Z) : bool :=
+  existsb (fun x => pool_in a op x &&
+                    (match find_asset (e_assets e) (p_asset x) with None => true | Some _ => false end ||
+                     (match tokens_from_shares (p_oshare x) (p_tshare x) (p_total x) with Err => true | Ok _ => false end &&
+                      negb (p_total x =? 0))))
+          (e_pools e).
+Definition avs_fails_stmt_id (e : env) (a : avs) (id : Z) (rows : list row) : bool :=
+  prices_fail (e_assets e) (v_assets a) || existsb (fun r => op_fails_stmt e a (r_op r)) (rows_of id rows).
+
+(* ledger invariant (share accounting, C02 / slash share clearing): an empty pool has no self share above its total share *)
+Definition empty_pools_sane (e : env) : bool :=
+  forallb (fun x => negb (p_total x =? 0) || (p_oshare x <=? p_tshare x)) (e_pools e).
+
 Definition row_eqb (a b : row) : bool :=
   (r_avs a =? r_avs b) && (r_op a =? r_op b) && (r_self a =? r_self b) && (r_total a =? r_total b) &&
   (r_active a =? r_active b).
@@ -203,7 +219,7 @@ Definition avs_ok_id (e : env) (calls : list (Z * Z)) (s s' : st) (a : avs) (id 
     list_eqb row_eqb before after && oz_eqb (get_val (s_avsval s) id) (get_val (s_avsval s') id)
   else if negb (v_assets_ok a) then
     (match after with [] => true | _ => false end) && oz_eqb (get_val (s_avsval s') id) None
-  else if avs_fails_id e a id (s_rows s) then
+  else if avs_fails_stmt_id e a id (s_rows s) then
     (* failure keeps the old values *)
     list_eqb row_eqb before after && oz_eqb (get_val (s_avsval s) id) (get_val (s_avsval s') id)
   else
